@@ -80,7 +80,13 @@ func keyGT(k *pgpKeyMat) []string {
 	}
 	curve := "-"
 	if k.curve != "" && k.curve != "X25519" {
-		curve = hxs(k.curve)
+		// the curve string every container uses: NIST name with its SECG / ANSI X9.62 aliases
+		full := map[string]string{"P-256": "P-256 (secp256r1, prime256v1)", "P-384": "P-384 (secp384r1)", "P-521": "P-521 (secp521r1)"}
+		if f, ok := full[k.curve]; ok {
+			curve = hxs(f)
+		} else {
+			curve = hxs(k.curve)
+		}
 	}
 	return []string{fmt.Sprintf("%X", fp[:]), fmt.Sprintf("%X", fp[12:]), hxs(algDisplay[k.algo]), size, curve}
 }
